@@ -6,3 +6,102 @@ Definition sync_reinit (e : list Z * list Z * list Z * bool) : bool := snd e.
 
 Lemma fork_safe_sync_objects : forallb sync_reinit gen_sync_objects = true.
 Proof. vm_compute. reflexivity. Qed.
+
+(* ===================================================================== *)
+(* Round 2: control flow translated from the source (C04/PyGen.v languages, programs in Gen/C04_Tables.v) *)
+(* ===================================================================== *)
+From PV Require Import C04.PyGen.
+From Coq Require Import Lia.
+
+(* ---- pid_exists(): the guard chain ---- *)
+Lemma gen_pid_exists_eq_model : forall valid s n,
+  pe_exec gen_pid_exists s n = step valid s (PidExists n).
+Proof.
+  intros valid s n. unfold pe_exec, gen_pid_exists. cbn [pe_select pe_holds step].
+  destruct (n <? 0) eqn:E1; [reflexivity|].
+  destruct (n =? 0) eqn:E2; [|reflexivity].
+  apply Z.eqb_eq in E2. subst n. reflexivity.
+Qed.
+
+(* ---- process_iter(): the prologue ---- *)
+Lemma filter_all_true {A} (f : A -> bool) (l : list A) : (forall x, f x = true) -> filter f l = l.
+Proof. intros H. induction l as [|a r IH]; cbn [filter]; [reflexivity|]. now rewrite H, IH. Qed.
+
+Lemma ddel_all_ddel k ks d : ddel_all ks (ddel k d) = ddel_all (k :: ks) d.
+Proof.
+  unfold ddel_all, ddel. induction d as [|[a v] r IH]; cbn [filter fst]; [reflexivity|].
+  unfold zmem at 2. cbn [existsb]. fold (zmem a ks).
+  destruct (a =? k) eqn:E; cbn [negb orb filter fst].
+  - exact IH.
+  - destruct (zmem a ks); cbn [negb]; [exact IH|]. f_equal. exact IH.
+Qed.
+
+(* 'for pid in S: remove(pid)' in any order = dropping every key of S *)
+Lemma remove_each_ddel_all ks : forall d, remove_each ks d = ddel_all ks d.
+Proof.
+  unfold remove_each. induction ks as [|k ks IH]; intros d; cbn [fold_left].
+  - unfold ddel_all. symmetry. apply filter_all_true. intros x. reflexivity.
+  - rewrite IH. apply ddel_all_ddel.
+Qed.
+
+Lemma gen_prologue_eq_model : forall t pm ru,
+  prologue_run gen_iter_prologue t pm ru = (do r <- gen_start t pm ru; Val (r, @nil Z)).
+Proof.
+  intros t pm ru. unfold prologue_run, gen_start, gen_iter_prologue.
+  cbn [pexec_all pexec penv_init set_pm obind].
+  destruct (pids_sorted (listing t)) as [[l low]|e|]; [|reflexivity|reflexivity].
+  cbn [obind pexec_all pexec set_var set_pm e_pm e_sets e_ru e_low e_ls Nat.eqb fst snd].
+  rewrite !remove_each_ddel_all. reflexivity.
+Qed.
+
+(* ---- process_iter(): the loop ---- *)
+Lemma gen_loop_eq_model : forall t valid attrs rest x,
+  run_for t valid attrs gen_iter_body x rest = gen_loop t valid attrs x rest.
+Proof.
+  intros t valid attrs rest. induction rest as [|[pid po] rest' IH]; intros x; [reflexivity|].
+  cbn [run_for gen_loop]. unfold gen_iter_body at 1. cbn [b_stmts b_handlers].
+  assert (TAIL : forall o x1,
+    match run_body t valid attrs pid [(GAttrs, AInfo); (GAlways, AYield)] (Some o) x1 with
+    | RYield x' o0 => LYield x' rest' pid o0 (o_info (l_hp x' o0))
+    | RNext _ x' => run_for t valid attrs gen_iter_body x' rest'
+    | RExc x' e =>
+      match handler_for [(NoSuchProcess, HRemove)] e with
+      | Some HRemove =>
+        run_for t valid attrs gen_iter_body
+                {| l_pm := ddel pid (l_pm x'); l_hp := l_hp x'; l_n := l_n x'; l_ru := l_ru x' |} rest'
+      | Some HPass => run_for t valid attrs gen_iter_body x' rest'
+      | None => LExc x' e
+      end
+    | ROom x' => LOom x'
+    end =
+    match attrs with
+    | None => LYield x1 rest' pid o (o_info (l_hp x1 o))
+    | Some l =>
+      let '(r, ob', ru') := as_dict t valid (l_ru x1) pid (l_hp x1 o) l in
+      match r with
+      | Val keys =>
+        LYield {| l_pm := l_pm x1; l_hp := upd_heap (l_hp x1) o (set_info ob' (Some keys)); l_n := l_n x1; l_ru := ru' |}
+               rest' pid o (Some keys)
+      | Exc NoSuchProcess =>
+        gen_loop t valid attrs {| l_pm := ddel pid (l_pm x1); l_hp := upd_heap (l_hp x1) o ob'; l_n := l_n x1; l_ru := ru' |}
+                 rest'
+      | Exc e => LExc {| l_pm := l_pm x1; l_hp := upd_heap (l_hp x1) o ob'; l_n := l_n x1; l_ru := ru' |} e
+      | OutOfModel => LOom x1
+      end
+    end).
+  { intros o x1. cbn [run_body eval_guard]. destruct attrs as [l|]; [|reflexivity].
+    cbn [exec_act]. destruct (as_dict t valid (l_ru x1) pid (l_hp x1 o) l) as [[r ob'] ru'].
+    destruct r as [keys|e|]; [| |reflexivity].
+    - cbn [run_body eval_guard exec_act l_hp]. f_equal. unfold upd_heap. rewrite Nat.eqb_refl. reflexivity.
+    - destruct e; cbn [handler_for exn_beq l_pm l_hp l_n l_ru]; try reflexivity. apply IH. }
+  cbn [run_body eval_guard eval_any].
+  destruct po as [o|]; cbn [eval_cond].
+  - destruct (o_reused (l_hp x o)) eqn:Er.
+    + cbn [exec_act]. destruct (find_proc t pid) as [k|].
+      * apply TAIL.
+      * cbn [handler_for exn_beq l_pm l_hp l_n l_ru]. apply IH.
+    + apply TAIL.
+  - cbn [exec_act]. destruct (find_proc t pid) as [k|].
+    + apply TAIL.
+    + cbn [handler_for exn_beq l_pm l_hp l_n l_ru]. apply IH.
+Qed.
